@@ -97,7 +97,7 @@ class TaskFailed(Exception):
     pass
 
 
-def scenario_graph(c, parents, n_streams, T):
+def scenario_graph(c, parents, n_streams, T, stop=False, scripts=None):
     from graphql.execution.incremental.computation import Computation
     from graphql.execution.incremental.incremental_executor import (DeliveryGroup, ExecutionGroup, ExecutionGroupValue, ItemStream,
                                                                     StreamItemValue)
@@ -225,7 +225,7 @@ def scenario_graph(c, parents, n_streams, T):
             tasks.append(make_task(f"t{t}", list(sub), mode, nested))
         streams = []
         for s in range(n_streams):
-            script = c.pick(STREAM_SCRIPTS, f"s{s}.script", cost=0)
+            script = c.pick(scripts or STREAM_SCRIPTS, f"s{s}.script", cost=0)
             cap = c.pick([1, 2], f"s{s}.capacity", cost=0)
             eager = c.flag(f"s{s}.eager", cost=0)
             desc["streams"].append({"script": script, "capacity": cap, "eager": eager})
@@ -242,7 +242,11 @@ def scenario_graph(c, parents, n_streams, T):
             payloads.append(res.initial_result.formatted)
             it = res.subsequent_results
             while True:
-                await w.gate("pull", None, kind="pull")
+                act = await w.gate("pull", None, kind="pull")
+                if act == "close":
+                    await it.aclose()
+                    trace.append("closed")
+                    return
                 try:
                     p = await it.__anext__()
                 except StopAsyncIteration:
@@ -252,15 +256,22 @@ def scenario_graph(c, parents, n_streams, T):
                     raise Livelock("payload stream does not end")
 
         t = w.task(main())
+        stopped = False
         try:
             while not t.done():
                 w.drain()
                 if t.done():
                     break
                 og = [g for g in w.gates if g.open]
+                can_stop = stop and not stopped and any(g.kind == "pull" for g in og)
                 if not og:
                     raise Hang("consumer waits, nothing can complete")
-                k = c.choose(len(og), "release", cost=0)
+                k = c.choose(len(og) + (1 if can_stop else 0), "release", cost=0)
+                if k == len(og):
+                    stopped = True
+                    trace.append("STOP:aclose")
+                    next(g for g in og if g.kind == "pull").release(("ok", "close"))
+                    continue
                 trace.append(og[k].label)
                 og[k].release()
             w.drain()
@@ -268,8 +279,20 @@ def scenario_graph(c, parents, n_streams, T):
                 status = "raised:" + repr(t.exception())
         except (Hang, Livelock) as e:
             status = "hang:" + str(e)
+        if stop:
+            # the outside world completes what it had started
+            for _ in range(30):
+                og = [g for g in w.gates if g.open and g.kind != "pull"]
+                if not og:
+                    break
+                og[0].release()
+                try:
+                    w.drain()
+                except Livelock:
+                    break
         left = task_names(w.pending_tasks(exclude=(t,)))
-    return {"desc": desc, "payloads": payloads, "trace": trace, "status": status, "left": left, "enclosing": enclosing, "hook": ctx.hook}
+    return {"desc": desc, "payloads": payloads, "trace": trace, "status": status, "left": left, "enclosing": enclosing, "hook": ctx.hook,
+            "stopped": stopped, "cancelled": ctx.cancelled}
 
 
 def check_graph(obs, res, c, parents, ns):
